@@ -61,6 +61,9 @@ theorem res53ToRat_eq (n : Nat) : res53ToRat n = (n : ℚ) / 2 ^ 64 := by
   push_cast
   rfl
 
+theorem nextRaw_setSeed_aux (g₁ g₂ : RandomImpl) (s : UInt32) : (g₁.setSeed s).nextRaw = (g₂.setSeed s).nextRaw := by
+  simp [RandomImpl.nextRaw, RandomImpl.setSeed]
+
 section
 variable {K : Type} [Add K] [Sub K] [Mul K] [Neg K] [Div K] [OfNat K 0] [OfNat K 1] [OfNat K 2]
   [LT K] [DecidableLT K] [LE K] [DecidableLE K] [BEq K]
@@ -119,6 +122,33 @@ theorem gauss_step (cv : Nat → K) (log sqrt : K → K) (fuel : Nat) (a b : Gau
     | some t =>
       obtain ⟨x, y, r2⟩ := t
       simp [Gaussian.getValue, GEq, hA, hB, e2]
+
+omit [Add K] [Sub K] [Mul K] [Neg K] [Div K] [OfNat K 0] [OfNat K 1] [OfNat K 2] [LT K] [DecidableLT K] [LE K]
+  [DecidableLE K] [BEq K] in
+theorem uniform_setSeed_eq (u : Uniform K) (s : UInt32) :
+    u.setSeed s = ⟨u.rng.setSeed s, u.min, u.max, u.range⟩ := rfl
+
+omit [Add K] [Sub K] [Mul K] [Neg K] [Div K] [OfNat K 0] [OfNat K 1] [OfNat K 2] [LT K] [DecidableLT K] [LE K]
+  [DecidableLE K] [BEq K] in
+theorem gaussian_setSeed_eq (g : Gaussian K) (s : UInt32) :
+    g.setSeed s = ⟨g.rng.setSeed s, g.mean, g.stddev, g.nextGaussian, false⟩ := rfl
+
+omit [Add K] [Sub K] [Mul K] [Neg K] [Div K] [OfNat K 0] [OfNat K 1] [OfNat K 2] [LT K] [DecidableLT K] [LE K]
+  [DecidableLE K] [BEq K] in
+/-- reseeded `Uniform` objects with equal `min`, `range` are indistinguishable (proved through the propositional
+unfolding `uniform_setSeed_eq`: a definitional unfolding makes the kernel compare `initGenRand s` with a variable) -/
+theorem UEq_setSeed (u₁ u₂ : Uniform K) (s : UInt32) (hmin : u₁.min = u₂.min) (hrange : u₁.range = u₂.range) :
+    UEq (u₁.setSeed s) (u₂.setSeed s) := by
+  rw [uniform_setSeed_eq, uniform_setSeed_eq]
+  exact ⟨nextRaw_setSeed_aux _ _ s, hmin, hrange⟩
+
+omit [Add K] [Sub K] [Mul K] [Neg K] [Div K] [OfNat K 0] [OfNat K 1] [OfNat K 2] [LT K] [DecidableLT K] [LE K]
+  [DecidableLE K] [BEq K] in
+theorem GEq_setSeed (g₁ g₂ : Gaussian K) (s : UInt32) (hmean : g₁.mean = g₂.mean) (hsd : g₁.stddev = g₂.stddev) :
+    GEq (g₁.setSeed s) (g₂.setSeed s) := by
+  rw [gaussian_setSeed_eq, gaussian_setSeed_eq]
+  refine ⟨nextRaw_setSeed_aux _ _ s, hmean, hsd, rfl, ?_⟩
+  intro h; cases h
 end
 
 /-! ### period certification -/
@@ -153,6 +183,10 @@ theorem parityFold_01 (x : UInt32) : parityFold x = 0 ∨ parityFold x = 1 := by
   rw [parityFold_eq]; exact u32_and_one _
 
 theorem firstParityBit_eq : firstParityBit = some (0, 1) := by decide
+
+theorem periodCertification_of_parity (st : Array UInt32) (h : parityInner st = 1) : periodCertification st = st := by
+  unfold periodCertification
+  rw [if_pos (by rw [h]; rfl)]
 
 theorem periodCertification_parity (st : Array UInt32) (h : 4 ≤ st.size) :
     parityInner (periodCertification st) = 1 := by
